@@ -14,8 +14,9 @@
 (*     operations, shifts by whole limbs + carry between limbs in both the *)
 (*     closed form and the code's LeftShift64 chain, shifts with carry-in, *)
 (*     casts) is compared with the bit-level definition on the same        *)
-(*     value: for all pairs (pairs = "all"), or for all values of a with   *)
-(*     b = 0 plus all pairs of boundary values (pairs = "edge").           *)
+(*     value: for all pairs (pairs = "all"), for all a and every boundary  *)
+(*     value b (pairs = "wide"), or for all values of a with b = 0 plus    *)
+(*     all pairs of boundary values (pairs = "edge").                      *)
 (* A wrong full-adder cell, a carry that is not propagated, a shift that   *)
 (* keeps a bit it should drop ... makes `verdict` leave {"todo","ok"}.     *)
 (***************************************************************************)
@@ -27,10 +28,10 @@ CONSTANTS Configs,  \* set of records [L, K, pairs]
 VARIABLES cf, a, b, verdict
 
 QuickConfigs ==
-  { [L |-> 0, K |-> 6, pairs |-> "all"],        \* BitVec = native, 6 bits
-    [L |-> 3, K |-> 2, pairs |-> "all"],        \* two limbs  (Uint128 shape)
-    [L |-> 2, K |-> 3, pairs |-> "all"],
-    [L |-> 6, K |-> 1, pairs |-> "all"],        \* one limb wider than a table nibble
+  { [L |-> 0, K |-> 6, pairs |-> "all"],        \* BitVec = native, 6 bits: 4 096 pairs
+    [L |-> 3, K |-> 2, pairs |-> "wide"],       \* two limbs  (Uint128 shape)
+    [L |-> 2, K |-> 3, pairs |-> "wide"],
+    [L |-> 6, K |-> 1, pairs |-> "wide"],       \* one limb wider than a table nibble
     [L |-> 2, K |-> 4, pairs |-> "edge"],       \* four limbs (Uint256 shape)
     [L |-> 8, K |-> 1, pairs |-> "edge"] }      \* one byte
 ThoroughConfigs ==
@@ -161,6 +162,7 @@ Init ==
   /\ cf \in Configs
   /\ LET m == P2(Width(cf)) IN
        \/ cf.pairs = "all"  /\ a \in 0..(m - 1) /\ b \in 0..(m - 1)
+       \/ cf.pairs = "wide" /\ a \in 0..(m - 1) /\ b \in Edge(Width(cf))
        \/ cf.pairs = "edge" /\ a \in 0..(m - 1) /\ b = 0
        \/ cf.pairs = "edge" /\ a \in Edge(Width(cf)) /\ b \in Edge(Width(cf)) \ {0}
   /\ verdict = "todo"
